@@ -98,57 +98,113 @@ def D6(m, R):
     ok = bool(dflt) and any(isinstance(x, ast.Assign) and norm(x) == '%s = WHITESPACE_CHARS' % chars for x in dflt[0].body)
     R.check(ok, f, dflt[0] if dflt else f.node, 'chars=None strips the documented whitespace set',
             'chars=None does not select WHITESPACE_CHARS', construct='_strip default set')
-    scans = [n for n in f.walk() if isinstance(n, ast.For)]
+    # the two scans: written in place, or through a private counting helper
+    txt = '%s.%s' % (f.self_name, TEXT)
+
+    def scan_of(loop, over=None, among=None):
+        """`for c in IT: if c in CH: cnt (+|-)= 1 else: break`  (or `if c not in CH: break` then the step): (IT, CH, counter, step) or None"""
+        if not (isinstance(loop, ast.For) and isinstance(loop.target, ast.Name)):
+            return None
+        c = loop.target.id
+        body = loop.body
+        cnt = step = ch = None
+        if len(body) == 1 and isinstance(body[0], ast.If) and isinstance(body[0].test, ast.Compare) and isinstance(body[0].test.ops[0], ast.In) and \
+                norm(body[0].test.left) == c and len(body[0].body) == 1 and isinstance(body[0].body[0], ast.AugAssign) and \
+                len(body[0].orelse) == 1 and isinstance(body[0].orelse[0], ast.Break):
+            ch = norm(body[0].test.comparators[0])
+            inc = body[0].body[0]
+        elif len(body) == 2 and isinstance(body[0], ast.If) and isinstance(body[0].test, ast.Compare) and isinstance(body[0].test.ops[0], ast.NotIn) and \
+                norm(body[0].test.left) == c and len(body[0].body) == 1 and isinstance(body[0].body[0], ast.Break) and not body[0].orelse and \
+                isinstance(body[1], ast.AugAssign):
+            ch = norm(body[0].test.comparators[0])
+            inc = body[1]
+        else:
+            return None
+        if not (isinstance(inc.target, ast.Name) and const_val(inc.value, None) == 1 and isinstance(inc.op, (ast.Add, ast.Sub))):
+            return None
+        return (norm(loop.iter), ch, inc.target.id, 1 if isinstance(inc.op, ast.Add) else -1, loop)
+    facts = []        # (what is scanned, membership set, variable holding the count, sign of the count, node)
+    odd = []
+    for n in f.walk():
+        if isinstance(n, ast.For):
+            sc = scan_of(n)
+            if sc is not None:
+                facts.append(sc)
+            elif norm(n.iter) in (txt, 'reversed(%s)' % txt, '%s[::-1]' % txt):
+                odd.append(n)
+    for n in f.walk():
+        if isinstance(n, ast.Assign) and isinstance(n.targets[0], ast.Name):
+            for c_ in ast.walk(n.value):
+                if isinstance(c_, ast.Call) and len(c_.args) == 2 and not c_.keywords:
+                    nm = call_name(c_)
+                    callee = m.funcs.get('AnsiString.%s' % nm) if nm and nm.startswith('_') else None
+                    if callee is None:
+                        continue
+                    hl = [x for x in callee.body if isinstance(x, ast.For)]
+                    hs = scan_of(hl[0]) if len(hl) == 1 else None
+                    ps_ = callee.own_params() if not callee.is_static else callee.params
+                    rets_ = [x for x in callee.walk() if isinstance(x, ast.Return)]
+                    if hs is not None and len(ps_) >= 2 and hs[0] == ps_[0] and hs[1] == ps_[1] and hs[3] == 1 and len(rets_) == 1 and norm(rets_[0].value) == hs[2]:
+                        facts.append((norm(c_.args[0]), norm(c_.args[1]), n.targets[0].id, 1, n))
     seen = {'fwd': None, 'rev': None}
-    for lp in scans:
-        it = norm(lp.iter)
-        if it == '%s.%s' % (f.self_name, TEXT):
-            seen['fwd'] = lp
-        elif it in ('reversed(%s.%s)' % (f.self_name, TEXT), '%s.%s[::-1]' % (f.self_name, TEXT)):
-            seen['rev'] = lp
-    for kind, lp in seen.items():
+    for fct in facts:
+        if fct[0] == txt:
+            seen['fwd'] = fct
+        elif fct[0] in ('reversed(%s)' % txt, '%s[::-1]' % txt):
+            seen['rev'] = fct
+    for kind in ('fwd', 'rev'):
         cons = '_strip %s scan' % kind
-        if lp is None:
-            R.viol(f, f.node, 'no %s scan over the base text' % ('forward' if kind == 'fwd' else 'reverse'), construct=cons)
+        fct = seen[kind]
+        if fct is None:
+            if odd:
+                R.viol(f, odd[0], 'the scan `for %s in %s` does not count the leading characters found in chars one by one and stop at the first other character'
+                       % (norm(odd[0].target), norm(odd[0].iter)), construct=cons)
+            else:
+                R.undecided(f, f.node, 'no %s scan over the base text recognised (in place or through a counting helper)' % ('forward' if kind == 'fwd' else 'reverse'), construct=cons)
             continue
-        body = lp.body
-        ok = len(body) == 1 and isinstance(body[0], ast.If) and isinstance(body[0].test, ast.Compare) and \
-            isinstance(body[0].test.ops[0], ast.In) and norm(body[0].test.left) == norm(lp.target) and norm(body[0].test.comparators[0]) == chars
-        step_ok = brk_ok = False
-        if ok:
-            inc = body[0].body
-            step_ok = len(inc) == 1 and isinstance(inc[0], ast.AugAssign) and const_val(inc[0].value) == 1 and \
-                isinstance(inc[0].op, ast.Add if kind == 'fwd' else ast.Sub)
-            brk_ok = len(body[0].orelse) == 1 and isinstance(body[0].orelse[0], ast.Break)
-        R.check(ok and step_ok and brk_ok, f, lp, 'counts leading characters in chars by 1 and stops at the first other character',
-                'scan body is not `if c in chars: count %s= 1 else: break`' % ('+' if kind == 'fwd' else '-'), construct=cons)
+        problems = []
+        if fct[1] != chars:
+            problems.append('membership is tested against %s, not %s' % (fct[1], chars))
+        if kind == 'fwd' and fct[3] != 1:
+            problems.append('the left count goes down')
+        R.check(not problems, f, fct[4], 'counts leading characters in chars by 1 and stops at the first other character', '; '.join(problems), construct=cons)
+    # the counts reach clip(left count, negative right count or None, inplace)
     rets = [n for n in f.walk() if isinstance(n, ast.Return)]
     last = rets[-1] if rets else None
-    if last is not None and isinstance(last.value, ast.Call):
-        lc = [n.target.id for lp in [seen['fwd']] if lp for n in ast.walk(lp) if isinstance(n, ast.AugAssign) and isinstance(n.target, ast.Name)]
-        rc = [n.target.id for lp in [seen['rev']] if lp for n in ast.walk(lp) if isinstance(n, ast.AugAssign) and isinstance(n.target, ast.Name)]
-        if lc and rc:
-            _expect_call(R, f, last, last.value, fn('clip'), {'start': lc[0], 'end': rc[0], 'inplace': inplace},
+    if last is not None and isinstance(last.value, ast.Call) and seen['fwd'] and seen['rev']:
+        lc = seen['fwd'][2]
+        rv = seen['rev']
+        rc = rv[2]
+        if rv[3] == 1:
+            # counted upwards: the end index must be its negation, taken only when positive
+            neg = [n for n in f.walk() if isinstance(n, ast.Assign) and norm(n.value) == '-%s' % rc and isinstance(n.targets[0], ast.Name)]
+            rc = neg[0].targets[0].id if neg else None
+        if rc is None:
+            R.undecided(f, last, 'how the right count becomes the end index is not recognised', construct='_strip clip')
+        else:
+            _expect_call(R, f, last, last.value, fn('clip'), {'start': lc, 'end': rc, 'inplace': inplace},
                          '_strip returns clip(lcount, rcount, inplace)', '_strip clip', recv=f.self_name)
-    # scans guarded by their flag
+    # each scan runs only when its flag is set
     for kind, flag in (('fwd', do_l), ('rev', do_r)):
-        lp = seen[kind]
-        if lp is None:
+        fct = seen[kind]
+        if fct is None:
             continue
-        guards = [p for p in _parents(lp) if isinstance(p, ast.If)]
-        g_ok = any(flag in names_in(g.test) for g in guards)
-        if g_ok:
-            g = [g for g in guards if flag in names_in(g.test)][0]
-            # flag False must skip the scan
-            v = eval_guard(g.test, flag_valuation({flag: False}))
-            in_body = any(lp is x or lp in list(ast.walk(x)) for x in g.body)
-            g_ok = (v is False and in_body) or (v is True and not in_body) or (v is None and False)
-            if v is None:
-                # `do_rstrip and lcount < len(...)`: False flag -> False regardless
-                from ..finite import eval_guard as eg
-                v2 = eg(g.test, flag_valuation({flag: False}, {}))
-                g_ok = in_body and isinstance(g.test, ast.BoolOp) and isinstance(g.test.op, ast.And) and any(is_name(x, flag) for x in g.test.values)
-        R.check(g_ok, f, lp, 'the %s scan runs only when %s is set' % (kind, flag), construct='_strip %s flag' % kind)
+        node = fct[4]
+        g_ok = False
+        for p_ in [node] + list(_parents(node)):
+            t_ = p_.test if isinstance(p_, (ast.If, ast.IfExp)) else None
+            if isinstance(p_, ast.Assign) and isinstance(p_.value, ast.IfExp):
+                t_ = p_.value.test
+                v_ = eval_guard(t_, flag_valuation({flag: False}))
+                if flag in names_in(t_) and v_ is False and any(isinstance(x, ast.Call) for x in ast.walk(p_.value.body)):
+                    g_ok = True
+                continue
+            if t_ is not None and flag in names_in(t_):
+                v_ = eval_guard(t_, flag_valuation({flag: False}))
+                in_body = isinstance(p_, ast.If) and any(node is x for b_ in p_.body for x in ast.walk(b_))
+                if v_ is False and in_body:
+                    g_ok = True
+        R.check(g_ok, f, node, 'the %s scan runs only when %s is set' % (kind, flag), construct='_strip %s flag' % kind)
 
     # clip -> self[start:end] (+ transfer in place)
     f = fn('clip')
@@ -425,55 +481,55 @@ def D6(m, R):
                                                                   '%s.set_ansi_str(%s.to_str())' % (selfn, selfn))):
         problems.append('does not finish by re-parsing its own default rendering (%s)' % short(last))
     R.check(not problems, f, f.node, 'simplify filters START and STOP by .valid, then re-parses str(self)', '; '.join(problems), construct=cons)
-    # partition / rpartition
+    # partition / rpartition: the tuple returned when the separator is found / absent (any control-flow shape)
     for name, finder in (('partition', 'find'), ('rpartition', 'rfind')):
         f = fn(name)
         sep = f.own_params()[0]
         selfn = f.self_name
         cons = name
         problems = []
-        env = {}
-        for st_ in f.body:
-            if isinstance(st_, ast.Assign) and isinstance(st_.targets[0], ast.Name):
-                env[st_.targets[0].id] = subst(st_.value, env)
-        idxs = [k for k, v in env.items() if isinstance(v, ast.Call) and isinstance(v.func, ast.Attribute) and v.func.attr in ('find', 'rfind', 'index', 'rindex')]
-        if not idxs:
+        search = next((n for n in f.body if isinstance(n, ast.Assign) and isinstance(n.targets[0], ast.Name) and isinstance(n.value, ast.Call) and
+                       call_name(n.value) in ('find', 'rfind', 'index', 'rindex')), None)
+        if search is None:
             R.undecided(f, f.node, 'no search of the separator', construct=cons)
             continue
-        idx = idxs[0]
-        sc = env[idx]
+        idx = search.targets[0].id
+        sc = search.value
         if sc.func.attr != finder or norm(sc.func.value) != '%s.%s' % (selfn, TEXT) or [norm(a) for a in sc.args] != [sep]:
             problems.append('searches with %s, expected %s.%s.%s(%s)' % (short(sc), selfn, TEXT, finder, sep))
-        ifs = [x for x in f.body if isinstance(x, ast.If)]
-        found_ret = nf_ret = None
-        if ifs:
-            t = ifs[0].test
-            v_found = eval_guard(t, order_valuation({idx: 1, '0': 0}))
-            body_found = ifs[0].body if v_found else ifs[0].orelse
-            body_nf = ifs[0].orelse if v_found else ifs[0].body
-            found_ret = next((x for x in body_found if isinstance(x, ast.Return)), None)
-            nf_ret = next((x for x in body_nf if isinstance(x, ast.Return)), None)
-            env2 = dict(env)
-            for st_ in body_found:
-                if isinstance(st_, ast.Assign) and isinstance(st_.targets[0], ast.Name):
-                    env2[st_.targets[0].id] = subst(st_.value, {k: v for k, v in env2.items() if k != idx})
-            if found_ret is not None and isinstance(found_ret.value, ast.Tuple) and len(found_ret.value.elts) == 3:
-                e2 = {k: v for k, v in env2.items() if k != idx}
-                parts = [norm(subst(x, e2)) for x in found_ret.value.elts]
-                L = 'len(%s)' % sep
-                want = [('%s[0:%s]' % (selfn, idx), '%s[:%s]' % (selfn, idx)),
-                        ('%s[%s:%s + %s]' % (selfn, idx, idx, L),),
-                        ('%s[%s + %s:]' % (selfn, idx, L),)]
-                for got_, w in zip(parts, want):
-                    if got_ not in w:
-                        problems.append('piece %s, expected %s' % (got_, w[0]))
-            else:
-                problems.append('found arm does not return a 3-tuple of slices')
-            if nf_ret is None or not isinstance(nf_ret.value, ast.Tuple) or \
-                    [norm(x) for x in nf_ret.value.elts] not in (['%s.copy()' % selfn, 'AnsiString()', 'AnsiString()'], ['AnsiString(%s)' % selfn, 'AnsiString()', 'AnsiString()']):
-                problems.append('separator absent: returns %s, documented (copy, empty, empty)' % (short(nf_ret.value) if nf_ret else None))
+        rest = f.body[f.body.index(search) + 1:]
+        outcome = {}
+        try:
+            for label, rank in (('found', 0), ('absent', -1)):
+                env = {}
+                got = []
+
+                def visit(st):
+                    if isinstance(st, ast.Assign) and isinstance(st.targets[0], ast.Name):
+                        env[st.targets[0].id] = subst(st.value, env)
+                    elif isinstance(st, ast.Return):
+                        got.append(subst(st.value, env) if st.value is not None else None)
+                out = run_block(rest, order_valuation({idx: rank}), visit)
+                outcome[label] = got[-1] if got else None
+        except Undecided as e:
+            R.undecided(f, f.node, 'found / absent split not decided: %s' % e, construct=cons)
+            continue
+        L = 'len(%s)' % sep
+        fr = outcome.get('found')
+        if isinstance(fr, (ast.Tuple, ast.List)) and len(fr.elts) == 3:
+            parts = [norm(x) for x in fr.elts]
+            want = [('%s[0:%s]' % (selfn, idx), '%s[:%s]' % (selfn, idx)),
+                    ('%s[%s:%s + %s]' % (selfn, idx, idx, L),),
+                    ('%s[%s + %s:]' % (selfn, idx, L),)]
+            for got_, w in zip(parts, want):
+                if got_ not in w:
+                    problems.append('piece %s, expected %s' % (got_, w[0]))
         else:
-            problems.append('no found / not-found split')
+            problems.append('separator found: returns %s, expected the three slices' % (short(fr) if fr is not None else None))
+        ar = outcome.get('absent')
+        if not isinstance(ar, (ast.Tuple, ast.List)) or \
+                [norm(x) for x in ar.elts] not in (['%s.copy()' % selfn, 'AnsiString()', 'AnsiString()'], ['AnsiString(%s)' % selfn, 'AnsiString()', 'AnsiString()']):
+            problems.append('separator absent: returns %s, documented (copy, empty, empty)' % (short(ar) if ar is not None else None))
         R.check(not problems, f, f.node, '%s: TEXT.%s(sep); (s[0:i], s[i:i+len(sep)], s[i+len(sep):]) or (copy, "", "")' % (name, finder),
                 '; '.join(problems), construct=cons)
     # removeprefix / removesuffix
@@ -497,7 +553,7 @@ def D6(m, R):
             if got != w:
                 problems.append('clips with %s, expected %s' % (got, w))
         R.check(not problems, f, f.node, '%s: if TEXT.%s(x) clip(%s)' % (name, test, want), '; '.join(problems), construct=cons)
-    # _split / splitlines
+    # _split / splitlines: which str method produces the pieces, with which arguments (the offsets are rule P14's)
     for name in ('_split', 'splitlines'):
         f = fn(name)
         selfn = f.self_name
@@ -511,49 +567,25 @@ def D6(m, R):
             if kinds != ['rsplit', 'split']:
                 problems.append('text split by %s, expected str.split and str.rsplit' % kinds)
             for c in splitcalls:
-                if [norm(a) for a in c.args] != ps[:2]:
+                if [norm(a) for a in c.args] != ps[:2] or c.keywords:
                     problems.append('%s called with (%s), expected (%s)' % (c.func.attr, ', '.join(norm(a) for a in c.args), ', '.join(ps[:2])))
-            # r flag selects rsplit
+            # r selects rsplit: an if statement or a conditional expression on r
+            sel = None
             for n in f.walk():
-                if isinstance(n, ast.If) and any(c in list(ast.walk(n)) for c in splitcalls):
+                if isinstance(n, (ast.If, ast.IfExp)) and ps[2] in names_in(n.test):
                     v = eval_guard(n.test, flag_valuation({ps[2]: True}))
-                    arm = n.body if v else n.orelse
-                    which = [c.func.attr for c in splitcalls if any(c in list(ast.walk(x)) for x in arm)]
-                    if v is None or which != ['rsplit']:
-                        problems.append('r=True selects %s' % which)
+                    arm = (n.body if v else n.orelse)
+                    arm = arm if isinstance(arm, list) else [arm]
+                    sel = [c.func.attr for c in splitcalls if any(c is x for a_ in arm for x in ast.walk(a_))]
+                    if v is None:
+                        sel = None
                     break
+            if sel != ['rsplit']:
+                problems.append('r=True selects %s, expected str.rsplit' % sel)
         else:
             if len(splitcalls) != 1 or splitcalls[0].func.attr != 'splitlines' or [norm(a) for a in splitcalls[0].args] != ps[:1]:
                 problems.append('text not split by str.splitlines(%s)' % ps[0])
-        # pieces: self[a:a+len]
-        app = [n for n in f.walk() if isinstance(n, ast.Call) and call_name(n) == 'append' and n.args and isinstance(n.args[0], ast.Subscript)
-               and is_name(n.args[0].value, selfn)]
-        if len(app) != 1:
-            problems.append('no unique `pieces.append(self[a:b])`')
-        else:
-            sl = app[0].args[0].slice
-            lp = next((p_ for p_ in _parents(app[0]) if isinstance(p_, ast.For)), None)
-            if not (isinstance(sl, ast.Slice) and lp is not None and isinstance(lp.target, ast.Tuple) and len(lp.target.elts) == 2):
-                problems.append('piece slice %s not understood' % short(app[0].args[0]))
-            else:
-                a, ln = [norm(x) for x in lp.target.elts]
-                if norm(sl.lower) != a or norm(sl.upper) not in ('%s + %s' % (a, ln), '%s + %s' % (ln, a)):
-                    problems.append('piece is %s, expected self[%s:%s + %s]' % (short(app[0].args[0]), a, a, ln))
-                # the (offset, length) list is filled with (cursor, len(piece)) for each str piece in order
-                src_list = norm(lp.iter)
-                fills = [n for n in f.walk() if isinstance(n, ast.Call) and call_name(n) == 'append' and norm(n.func.value) == src_list]
-                if len(fills) != 1 or not isinstance(fills[0].args[0], ast.Tuple):
-                    problems.append('offset list is not filled by one append of (offset, length)')
-                else:
-                    flp = next((p_ for p_ in _parents(fills[0]) if isinstance(p_, ast.For)), None)
-                    t_ = fills[0].args[0].elts
-                    if flp is None or norm(t_[1]) != 'len(%s)' % norm(flp.target):
-                        problems.append('recorded length is %s, not the length of the str piece' % norm(t_[1]))
-        for c in [n for n in f.walk() if isinstance(n, ast.Call) and call_name(n) in ('find', 'rfind', 'index', 'rindex') and isinstance(n.func, ast.Attribute)
-                  and norm(n.func.value) == '%s.%s' % (selfn, TEXT)]:
-            if c.func.attr != 'find' or len(c.args) != 2:
-                problems.append('a piece is relocated with %s; the pieces come in text order, so the search must be find(piece, cursor)' % short(c))
-        R.check(not problems, f, f.node, '%s: pieces are self[offset:offset+len(piece)] for the str pieces in order' % name, '; '.join(problems), construct=cons)
+        R.check(not problems, f, f.node, '%s: the pieces come from the same str method with the caller\'s arguments' % name, '; '.join(problems), construct=cons)
     for name, r in (('split', 'False'), ('rsplit', 'True')):
         f = fn(name)
         expr, ret = single_return(f)
